@@ -172,6 +172,8 @@ pub struct Run {
     pub watch: Vec<PathBuf>,
     pub fault: Option<String>,
     pub trunc_fault: Option<String>,
+    /// IOMON_READ_FAULT: "<widx>,<k>,<errno>".
+    pub read_fault: Option<String>,
     /// IOMON_NS_FAULT: "<widx>,<unlink|open>,<errno>[,<nth>]".
     pub ns_fault: Option<String>,
     pub delays: Vec<String>,
@@ -205,6 +207,7 @@ impl Run {
             fault: None,
             trunc_fault: None,
             ns_fault: None,
+            read_fault: None,
             delays: vec![],
             log_reads: false,
             hook_log: false,
@@ -308,6 +311,9 @@ pub fn run(r: &Run) -> Outcome {
         }
         if let Some(f) = &r.fault {
             cmd.env("IOMON_FAULT", f);
+        }
+        if let Some(f) = &r.read_fault {
+            cmd.env("IOMON_READ_FAULT", f);
         }
         if let Some(f) = &r.ns_fault {
             cmd.env("IOMON_NS_FAULT", f);
